@@ -532,9 +532,12 @@ def oracle_c11(ctx: Ctx):
         atoms += [("python_version", op, "3.*"), ("python_full_version", op, "3.7.*"), ("python_full_version", op, "3.*")]
     for op in ("in", "not in"):
         atoms += [("python_version", op, "3.6, 3.7"), ("python_version", op, "2.7"), ("python_version", op, "3.6,3.10, 3.11"), ("python_version", op, "3.9")]
-    for name, op, lit in atoms:
-        m = MarkerExpression(name, op, lit)
-        ctx.count("oracle-C11", 1, nontrivial_key=("view", name, op, lit.count("."), "*" in lit))
+    # literal-on-the-left spellings of the comparison atoms (stored with the reflected operator)
+    rev_atoms = [(n, o, l, True) for (n, o, l) in atoms if o in ("==", "!=", "<", "<=", ">", ">=") and "*" not in l]
+    for name, op, lit, *rev in [a + (False,) for a in atoms] + rev_atoms:
+        rev = bool(rev and rev[0])
+        m = MarkerExpression(name, op, lit, rev)
+        ctx.count("oracle-C11", 1, nontrivial_key=("view", name, op, lit.count("."), "*" in lit, rev))
         try:
             spec = m.specifier
         except Exception as e:  # noqa: BLE001
@@ -550,7 +553,9 @@ def oracle_c11(ctx: Ctx):
                 ctx.finding(f"view-eval-raise|{name}|{op}|{lit}", f"evaluate/contains raised {type(e).__name__}", {"atom": str(m), "value": val}, None, repr(e))
                 break
             if a != b:
-                ctx.finding(f"{env_class([str(m)], env)}view|{name}|{op}|{lit}", "the specifier view admits a different set than the atom evaluates true on",
+                from packaging.version import Version as _V
+                cls = "rev-suffix-view|" if rev and op in ("<", ">") and (_V(lit).is_prerelease or _V(lit).is_postrelease) else ""
+                ctx.finding(f"{cls}{env_class([str(m)], env)}view|{name}|{op}|{lit}|{'rev' if rev else ''}", "the specifier view admits a different set than the atom evaluates true on",
                             {"atom": str(m), "value": val}, a, {"specifier": str(spec), "admits": b})
                 break
     simple = []
